@@ -13,7 +13,8 @@
 
    The SDP of a stream changes with its input: when the occupied slot changes, the group holds the SDP of the new
    input if that is an RTSP publisher or an RTSP relay pull, and none otherwise (delIn clears it; inputs of the other
-   kinds bring none in the configurations modelled: the rtmp->rtsp remuxer is off).  [fsdp] = false is the tree
+   kinds bring none in the configurations modelled: the rtmp->rtsp remuxer is off); ServerManager.Dispose drops the SDP
+   of every group, whatever still occupies its slots.  [fsdp] = false is the tree
    before the repair of F-C03-4: the SDP of an RTSP relay pull that the group REFUSED (another input is accepted,
    or the pull was stopped while connecting) is delivered to the group all the same.  Deviation of that variant
    from the old code: a stale SDP left in a group WITHOUT input survives the arrival of a non-RTSP input there
@@ -101,8 +102,13 @@ Definition sdp_after (fsdp : bool) (st : state) (refused : option (N * N)) (tbl 
    | None => sdp_source s ga
    end).
 
+(* ServerManager.Dispose: Group.Dispose ends with delIn, which drops the SDP (and the pipeline) of every group - also of a
+   group whose input is a relay pull, which Group.Dispose does not touch: its slot stays occupied, its SDP is gone *)
+Definition is_dispose (ce : cevent) : bool := match ce with CE EDispose => true | _ => false end.
+
 Definition sdp_table (fsdp : bool) (st st1 : state) (ce : cevent) (tbl : list (N * option owner)) : list (N * option owner) :=
-  map (sdp_after fsdp st (rtsp_pull_refused st st1 ce) tbl) (st_groups st1).
+  if is_dispose ce then map (fun sg : N * group => (fst sg, None)) (st_groups st1)
+  else map (sdp_after fsdp st (rtsp_pull_refused st st1 ce) tbl) (st_groups st1).
 
 Definition dstep (fsdp fsh : bool) (fx : fixes) (cf : config) (ds : dstate) (de : devent) : dstate * dresult * list notif :=
   let cs := ds_shell ds in
